@@ -23,16 +23,27 @@ INVERSE = {'json.dumps': 'json.loads', 'compress': 'decompress',
            'ascii-decode': 'ascii-encode'}
 
 
-def _stages(fi):
-    """Ordered list of codec stages a function applies (first occurrence in
-    source order, which is execution order for these straight-line
-    functions)."""
-    out = []
+PRIMITIVES = ('compress', 'decompress')
 
-    def add(s):
-        if s not in out:
-            out.append(s)
-    events = []
+
+def _helper_of(model, fi, call):
+    """Same-module plain function a call resolves to (not a codec
+    primitive): its stages / constants belong to the caller's pipeline."""
+    if model is None or not isinstance(call.func, ast.Name) or \
+            call.func.id in PRIMITIVES:
+        return None
+    tg = model.resolve_callee(call.func, fi)
+    if len(tg) == 1 and tg[0][0] == 'func' and \
+            tg[0][1].module is fi.module and tg[0][1] is not fi:
+        return tg[0][1]
+    return None
+
+
+def _events(fi, model=None, depth=0):
+    """Codec stage events of a function in source order (inner calls of a
+    nested expression first); calls of same-module helpers are replaced by
+    the helper's own events."""
+    raw = []
     for n in own_nodes(fi.node):
         ln = getattr(n, 'lineno', 0)
         col = getattr(n, 'col_offset', 0)
@@ -40,27 +51,41 @@ def _stages(fi):
             f = norm(n.func)
             if f in ('json.dumps', 'json.loads', 'compress', 'decompress',
                      'b2a_base64', 'a2b_base64'):
-                events.append((ln, -col, f))
+                raw.append((ln, -col, [f]))
             elif f.endswith('.translate') and n.args:
-                events.append((ln, -col, norm(n.args[0])))
+                raw.append((ln, -col, [norm(n.args[0])]))
             elif f.endswith('.decode') and n.args and \
                     norm(n.args[0]).lower() in ("'ascii'",):
-                events.append((ln, -col, 'ascii-decode'))
+                raw.append((ln, -col, ['ascii-decode']))
             elif f.endswith('.encode') and n.args and \
                     norm(n.args[0]).lower() in ("'ascii'",):
-                events.append((ln, -col, 'ascii-encode'))
+                raw.append((ln, -col, ['ascii-encode']))
             elif f.endswith('.find') and n.args and \
                     norm(n.args[0]) == "b'='":
-                events.append((ln, -col, 'strip='))
+                raw.append((ln, -col, ['strip=']))
+            elif depth < 3:
+                h = _helper_of(model, fi, n)
+                if h is not None:
+                    raw.append((ln, -col, _events(h, model, depth + 1)))
         elif isinstance(n, ast.BinOp) and isinstance(n.op, ast.Add) and \
                 "b'='" in norm(n.right):
-            events.append((ln, -col, 'pad='))
-    # order by the LAST occurrence of each stage (both branches of the
-    # chunking `if` end with the same tail); nested calls on one line:
-    # inner first (larger column first)
+            raw.append((ln, -col, ['pad=']))
+        elif isinstance(n, ast.AugAssign) and isinstance(n.op, ast.Add) and \
+                "b'='" in norm(n.value):
+            raw.append((ln, -col, ['pad=']))
+    out = []
+    for _, _, evs in sorted(raw, key=lambda t: (t[0], t[1])):
+        out.extend(evs)
+    return out
+
+
+def _stages(fi, model=None):
+    """Ordered list of codec stages a function applies, ordered by the LAST
+    occurrence of each stage (both branches of the chunking `if` end with
+    the same tail)."""
     last = {}
-    for ln, col, s in sorted(events):
-        last[s] = (ln, col)
+    for i, s in enumerate(_events(fi, model)):
+        last[s] = i
     return [s for s, _ in sorted(last.items(), key=lambda kv: kv[1])]
 
 
@@ -71,7 +96,7 @@ def rule_mirror(model):
                    'encoding')
     enc = model.func('TreeTag', 'encode_seq')
     dec = model.func('TreeTag', 'decode_seq')
-    se, sd = _stages(enc), _stages(dec)
+    se, sd = _stages(enc, model), _stages(dec, model)
     r.instance(enc.where, ' -> '.join(se))
     r.instance(dec.where, ' -> '.join(sd))
     want = [INVERSE.get(s, '?' + s) for s in reversed(se)]
@@ -126,9 +151,13 @@ def rule_mirror(model):
     return r
 
 
-def _chunk_consts(fi):
+def _chunk_consts(fi, model=None, depth=0):
     out = set()
     for n in own_nodes(fi.node):
+        if isinstance(n, ast.Call) and depth < 3:
+            h = _helper_of(model, fi, n)
+            if h is not None:
+                out |= _chunk_consts(h, model, depth + 1)
         if isinstance(n, ast.Compare) and len(n.ops) == 1 and \
                 isinstance(n.ops[0], ast.Gt) and \
                 isinstance(n.comparators[0], ast.Constant):
@@ -150,7 +179,7 @@ def rule_chunks(model):
     consts = {}
     for name in ('encode_seq', 'encode_str', 'decode_seq'):
         fi = model.func('TreeTag', name)
-        consts[name] = _chunk_consts(fi)
+        consts[name] = _chunk_consts(fi, model)
         r.instance(fi.where, f'chunk constants {sorted(consts[name])}')
         if len(consts[name]) != 1:
             r.finding(fi.where, f'constants {sorted(consts[name])}',
@@ -178,16 +207,28 @@ def rule_encoder_twins(model):
     a = model.func('TreeTag', 'encode_seq')
     b = model.func('TreeTag', 'encode_str')
 
-    def core(fi):
+    def core(fi, depth=0):
         out = []
         for st in fi.node.body:
             s = norm(st)
             if isinstance(st, ast.Expr) and isinstance(st.value,
                                                        ast.Constant):
                 continue
+            # the chunk/strip/translate part moved into a shared helper:
+            # the helper's body is the core
+            if depth < 2:
+                hs = [h for c in ast.walk(st) if isinstance(c, ast.Call)
+                      for h in [_helper_of(model, fi, c)] if h is not None]
+                if hs:
+                    out.extend(core(hs[0], depth + 1))
+                    continue
             if 'compress(json.dumps' in s or 'isinstance(state, bytes)' in s \
-                    or ".decode('ascii')" in s or s.startswith('return'):
+                    or ".decode('ascii')" in s or s == 'return state':
                 continue
+            if isinstance(st, ast.Return) and st.value is not None:
+                st = ast.Assign(targets=[ast.Name(id='state',
+                                                  ctx=ast.Store())],
+                                value=st.value, lineno=st.lineno)
             out.append(st)
         return out
     ca, cb = core(a), core(b)
@@ -238,26 +279,32 @@ def rule_link_agreement(model):
     wr = model.func('TreeTag', 'tpRenderTABLE')
     # reader: md['tree-X'] decoded and applied with expand flag
     read = {}
-    for n in own_nodes(rd.node):
-        if isinstance(n, ast.If) and isinstance(n.test, ast.Compare) and \
-                isinstance(n.test.left, ast.Constant) and \
-                isinstance(n.test.left.value, str) and \
-                n.test.left.value.startswith('tree-'):
-            key = n.test.left.value
-            for c in ast.walk(n):
-                if isinstance(c, ast.Call) and norm(c.func) == 'apply_diff' \
-                        and len(c.args) == 3 and \
-                        isinstance(c.args[2], ast.Constant):
-                    read[key] = bool(c.args[2].value)
-                    # the diff applied is the one decoded from this key
-                    src = ast.unparse(n)
-                    if f"decode_seq(md['{key}'])" not in src:
-                        r.finding(rd.where, f'{key}', 'the diff applied is '
-                                  'not decoded from the parameter tested',
-                                  node=n, ctx=rd)
+    readers = [rd] + [f for f in model.module('TreeTag').funcs.values()
+                      if f is not rd]
+    for rfi in readers:
+        for n in own_nodes(rfi.node):
+            if isinstance(n, ast.If) and isinstance(n.test, ast.Compare) \
+                    and isinstance(n.test.left, ast.Constant) and \
+                    isinstance(n.test.left.value, str) and \
+                    n.test.left.value.startswith('tree-'):
+                key = n.test.left.value
+                for c in ast.walk(n):
+                    if isinstance(c, ast.Call) and \
+                            norm(c.func) == 'apply_diff' \
+                            and len(c.args) == 3 and \
+                            isinstance(c.args[2], ast.Constant):
+                        if key in read:
+                            continue
+                        read[key] = bool(c.args[2].value)
+                        # the diff applied is the one decoded from this key
+                        src = ast.unparse(n)
+                        if f"decode_seq(md['{key}'])" not in src:
+                            r.finding(rfi.where, f'{key}', 'the diff '
+                                      'applied is not decoded from the '
+                                      'parameter tested', node=n, ctx=rfi)
     r.instance(rd.where, f'reads {read}')
     if len(read) != 2:
-        raise AnalysisError(f'tpRender: expand/collapse parameters not '
+        raise AnalysisError(f'TreeTag: expand/collapse parameters not '
                             f'found ({read})')
     if set(read.values()) != {True, False}:
         r.finding(rd.where, f'apply_diff flags {read}', 'both click '
@@ -267,6 +314,27 @@ def rule_link_agreement(model):
     # writer: link under `if exp:` (node is expanded) must be the collapse
     # parameter, the other one the expand parameter
     wrote = {}
+    import re as _re
+    # a link built once from a letter chosen per branch:  'tree-%s=' % kind
+    generic = any(isinstance(c, ast.Constant) and isinstance(c.value, str)
+                  and _re.search(r'tree-(%s|\{)', c.value)
+                  for c in own_nodes(wr.node)) or any(
+        isinstance(c, ast.JoinedStr) and any(
+            isinstance(v, ast.Constant) and str(v.value).endswith('tree-')
+            for v in c.values) for c in own_nodes(wr.node))
+
+    def letters(branch):
+        out = []
+        for c in ast.walk(ast.Module(body=branch, type_ignores=[])):
+            if isinstance(c, ast.Assign):
+                vals = c.value.elts if isinstance(c.value, ast.Tuple) \
+                    else [c.value]
+                for v in vals:
+                    if isinstance(v, ast.Constant) and \
+                            isinstance(v.value, str) and len(v.value) == 1 \
+                            and v.value.isalpha():
+                        out.append(v.value)
+        return out
     for n in own_nodes(wr.node):
         if isinstance(n, ast.If) and norm(n.test) == 'exp':
             for branch, expanded in ((n.body, True), (n.orelse, False)):
@@ -274,9 +342,16 @@ def rule_link_agreement(model):
                     if isinstance(c, ast.Constant) and \
                             isinstance(c.value, str) and 'tree-' in c.value \
                             and '=%s' in c.value:
-                        import re as _re
                         for k in _re.findall(r'(tree-[a-z])=', c.value):
                             wrote[k] = expanded
+                if generic:
+                    for ch in letters(branch):
+                        wrote['tree-' + ch] = expanded
+        elif isinstance(n, ast.IfExp) and norm(n.test) == 'exp' and generic:
+            for v, expanded in ((n.body, True), (n.orelse, False)):
+                if isinstance(v, ast.Constant) and isinstance(v.value, str) \
+                        and len(v.value) == 1:
+                    wrote['tree-' + v.value] = expanded
     r.instance(wr.where, f'writes (param -> node currently expanded) '
                f'{wrote}')
     for k, expanded in wrote.items():
@@ -309,7 +384,8 @@ def rule_link_agreement(model):
     cw = [n for n in own_nodes(rd.node) if isinstance(n, ast.Call)
           and norm(n.func).endswith('.setCookie') and n.args
           and isinstance(n.args[0], ast.Constant)]
-    cr = [n.test.left.value for n in own_nodes(rd.node)
+    cr = [n.test.left.value for rfi in readers
+          for n in own_nodes(rfi.node)
           if isinstance(n, ast.If) and isinstance(n.test, ast.Compare)
           and isinstance(n.test.left, ast.Constant)
           and n.test.left.value == 'tree-s']
